@@ -198,11 +198,10 @@ def run_fn(case, ctx) -> None:
     bad_out = compare(yc, ye, tol)
     bad_grad = None
     ctx.count("compiled:grads-compared", len(ge))
-    for nme, a, b in zip(names, gc, ge):
-        bg = compare(a, b, tol)
-        if bg:
-            bad_grad = (nme, bg)
-            break
+    from ..instruments import grads_differ
+    gdiff = grads_differ(list(gc), list(ge), tol, names) if not any((a is None) != (b is None) for a, b in zip(gc, ge)) else "a gradient is present on one side only"
+    if gdiff:
+        bad_grad = (gdiff.split(":")[0], gdiff)
     if bad_out or bad_grad:
         # Is it the scaled op, or does the PLAIN PyTorch op already disagree between eager and this backend for these inputs?
         # (observed: bfloat16 conv1d backward under aot_eager returns uninitialised memory in padding-only positions)
@@ -461,11 +460,11 @@ def run_comp(case, ctx) -> None:
     bad_g = None
     if not bad:
         ctx.count("compiled:grads-compared", len(ge))
-        for i, (a, b) in enumerate(zip(gc, ge)):
-            bg = compare(a, b, tol * 4)
-            if bg:
-                bad_g = f"leaf {i}: {bg}"
-                break
+        from ..instruments import grads_differ
+        if any((a is None) != (b is None) for a, b in zip(gc, ge)):
+            bad_g = "a gradient is present on one side only"
+        else:
+            bad_g = grads_differ(list(gc), list(ge), tol * 4)
     if (bad or bad_g) and backend == "inductor" and dtype != torch.float64:
         # Inductor fuses ops and keeps intermediates in float32, eager rounds after every op: over a chain of low-precision ops the
         # two drift apart legitimately. Judge against the float64 truth: the compiled result may not be (much) farther from it
